@@ -549,7 +549,7 @@ pub fn run(prop: &str, tier: Tier) -> ! {
         "reference encoder `canon` (bit-wise CRC, bound to the repository's expected frames at start-up)".to_string(),
         "64-bit host, features std+alloc+nb".to_string(),
     ];
-    finish(&ctx, cov, assumptions, all.tally, &replay)
+    finish(&ctx, cov, assumptions, all.tally, &crate::replay_case)
 }
 
 /// `VERIF_ALPHA=alt` swaps the representatives (55 -> ff) to test data independence.
